@@ -373,21 +373,38 @@ def explore_params(ctx, extended=False):
                     check_roundtrip(d, "several parameters", ordered=list(reversed(list(d))), srt=srt)
         # values outside the domain: DQUOTE and control characters must be
         # refused or neutralised, never produce other parameters
+        VU = model.cls("prop.vUri", required=False)
         for bad in ['"'] + ctrl:
-            for v in (bad, "a" + bad, bad + ";X=1", "a" + bad + ",b", bad + ':' + bad):
-                F.n += 1
-                d = {"K": v}
-                try:
-                    params = mk_params(it, model, d)
-                    line = it.run(from_parts, ["X-NAME", params, "v"], {})
-                    name, p2, val = it.run(it.getattr(line, "parts"), [], {})
-                    back = _params_dict(it, p2)
-                    if set(back) != {"K"} or _s(name) != "X-NAME" or _s(val) != "v":
-                        F.add("no injection", "a parameter value containing a double quote or a "
-                              "control character creates or renames parameters / moves the value",
-                              params=d, line=_s(line), read_back=back, value=_s(val))
-                except AbsRaise:
-                    pass        # refused: allowed
+            singles = [bad, "a" + bad, bad + "a", bad + ";X=1", "a" + bad + ",b", bad + ':' + bad]
+            lists = [[bad + "a", "b" + bad], [bad, bad], ["a", bad + "b", "c"]]
+            # line values: plain text, and a value type without escaping that holds a second quote
+            values = [("v", "v")]
+            if VU is not None:
+                uri = 'http://a/' + bad + ';X-INJ=y:z'
+                values.append((it.instantiate(VU, [uri], {}) if "\n" not in uri else None, uri))
+            for pv in singles + lists:
+                for val, val_text in values:
+                    if val is None:
+                        continue
+                    F.n += 1
+                    d = {"K": pv}
+                    try:
+                        params = mk_params(it, model, d)
+                        line = it.run(from_parts, ["X-NAME", params, val], {})
+                        name, p2, v2 = it.run(it.getattr(line, "parts"), [], {})
+                        back = _params_dict(it, p2)
+                        nvals = len(back.get("K")) if isinstance(back.get("K"), list) else 1
+                        want_n = len(pv) if isinstance(pv, list) else 1
+                        if set(back) != {"K"} or _s(name) != "X-NAME" or _s(v2) != val_text:
+                            F.add("no injection", "a parameter value containing a double quote or a "
+                                  "control character creates or renames parameters / moves the value",
+                                  params=d, line=_s(line), read_back=back, value=_s(v2))
+                        elif nvals != want_n:
+                            F.add("no injection", "a parameter value list containing double quotes is read "
+                                  "back with another number of values", params=d, line=_s(line),
+                                  read_back=back)
+                    except AbsRaise:
+                        pass        # refused: allowed
         # the emitted text depends on the current content only (no stale state)
         for mutate in ("append to list value", "item assignment", "pop", "update", "setdefault", "clear"):
             F.n += 1
